@@ -22,7 +22,7 @@ import (
 func newBigFloat() *big.Float { return new(big.Float) }
 
 var (
-	strPool   = []string{"", "a", "b", "x y", "ünï", "zz", "0", "q\"uo\\te\nline", "a"}
+	strPool   = []string{"", "a", "b", "x y", "ünï", "zz", "0", "q\"uo\\te\nline", "a", strings.Repeat("long-", 700)}
 	keyPool   = []string{"k1", "k2", "k3", "key four", "K1", "k.1/é"}
 	int32Pool = []int64{0, 1, -1, 42, math.MaxInt32, math.MinInt32}
 	int64Pool = []int64{0, 1, -1, 4242, math.MaxInt64, math.MinInt64}
@@ -35,6 +35,7 @@ var (
 	durPool   = []int64{0, 1, -1, int64(90 * time.Minute), math.MaxInt64}
 	timePool  = []time.Time{
 		{},
+		time.Date(9999, 12, 31, 23, 59, 59, 999999999, time.UTC),
 		time.Unix(0, 0).UTC(),
 		time.Date(2022, 3, 4, 5, 6, 7, 123456789, time.UTC),
 		time.Date(1999, 12, 31, 23, 59, 59, 0, time.FixedZone("X", 3600*5+1800)),
@@ -128,7 +129,7 @@ func genScalar(t *rapid.T, f *spec.Field, typ reflect.Type, label string) reflec
 		return conv([]byte(s))
 	case spec.KEnum:
 		n := len(program.Enum(f.Ref).Values)
-		return conv(int32(rapid.IntRange(0, n-1).Draw(t, label)))
+		return conv(int32(rapid.IntRange(0, n+1).Draw(t, label))) // n and n+1 are not declared constants: still legal numbers
 	}
 	panic("harness: genScalar on kind " + f.Kind)
 }
@@ -408,7 +409,7 @@ func genTFScalar(t *rapid.T, f *spec.Field, typ tftypes.Type, label string) tfty
 		return tftypes.NewValue(typ, pick(t, strPool, label))
 	case spec.KEnum:
 		n := len(program.Enum(f.Ref).Values)
-		return tftypes.NewValue(typ, bigInt(int64(rapid.IntRange(0, n-1).Draw(t, label))))
+		return tftypes.NewValue(typ, bigInt(int64(rapid.IntRange(0, n+1).Draw(t, label))))
 	}
 	panic("harness: genTFScalar on kind " + f.Kind)
 }
